@@ -38,7 +38,7 @@ def leaves(e: BaseException) -> list[BaseException]:
 
 HANDLERS = ("none", "true", "false", "retnone")
 PLACES = ("F", "deeper", "task", "service", "after")
-BODIES = ("ret", "raise", "forever", "instant", "ret-td", "raise-td")
+BODIES = ("ret", "raise", "forever", "instant", "ret-td", "raise-td", "hs")  # hs: calls task_status.started() only after a gate
 
 
 class C09(E1Check):
@@ -64,6 +64,8 @@ class C09(E1Check):
             for place in PLACES:
                 for body in BODIES:
                     if how == "soon-cancel" and (body not in ("forever", "ret") or place not in ("F", "task")):
+                        continue
+                    if body == "hs" and (how != "start_task" or place not in ("F", "task")):
                         continue
                     spawn_opts.append({"how": how, "place": place, "body": body})
         for fctx in ("root", "nested"):
@@ -93,6 +95,11 @@ class C09(E1Check):
                         other = b if a["body"] in td_kinds else a
                         mine = a if a["body"] in td_kinds else b
                         if other["body"] not in ("instant", "ret") or other["place"] != "F" or mine["place"] != "F" or other["how"] != "soon" or mine["how"] == "soon-cancel":
+                            continue
+                    if tier == "quick" and "hs" in (a["body"], b["body"]):
+                        # the handshake window next to simple partners
+                        other = b if a["body"] == "hs" else a
+                        if other["body"] not in ("instant", "ret", "forever", "hs") or other["how"] == "soon-cancel" or other["place"] not in ("F", "task"):
                             continue
                     if tier == "quick":
                         # reduced pairs: second spawn from F or task; keep all body/how combinations
@@ -124,7 +131,8 @@ class C09(E1Check):
 
         log = env.log
         st = env.data["st"] = {"spawned": {}, "body_ended": set(), "waited": set(), "raised": {}, "handler_calls": [],
-                               "factory": None, "failed_spawns": set(), "hfail": [], "helpers": {}, "own_td_pending": set(), "called_in": {}, "body_ctx": {}}
+                               "factory": None, "failed_spawns": set(), "hfail": [], "helpers": {}, "own_td_pending": set(), "called_in": {}, "body_ctx": {},
+                               "live": set()}
         spawns = program["spawns"]
 
         def _handler(exc: Exception) -> Any:
@@ -161,6 +169,18 @@ class C09(E1Check):
             pending = set(st.get("pending_spawn", ()))
             must = {i for i in st["spawned"] if i not in st["body_ended"] or i in st["own_td_pending"]}
             may = {i for i in st["spawned"] if i not in st["waited"]} | pending
+            n_unknown = sum(1 for h in cur if id(h) not in st["helpers"] and id(h) not in byh)
+            # a task whose body is running while start_task() has not returned yet (start-up handshake) is a spawned task that has
+            # not finished: its handle - not yet known to the harness - must be listed
+            live_pending = {i for i in pending if i in st["live"]}
+            if n_unknown < len(live_pending):
+                st["hfail"].append(("handles", f"{where}: task(s) {sorted(live_pending)} are running (start_task() is waiting for their "
+                                               f"task_status.started()) but all_task_handles() lists only {n_unknown} handle(s) besides {sorted(got - {'unknown'})}"))
+                return
+            if n_unknown > len(pending):
+                if exact:
+                    st["hfail"].append(("handles", f"{where}: all_task_handles() contains a handle of no running task (failed spawns: {sorted(st['failed_spawns'])})"))
+                return
             if "unknown" in got and not pending:
                 if exact:
                     st["hfail"].append(("handles", f"{where}: all_task_handles() contains a handle of no running task (failed spawns: {sorted(st['failed_spawns'])})"))
@@ -174,8 +194,9 @@ class C09(E1Check):
         env.quiescent_hooks.append(lambda: check_handles("quiescent point", True))
 
         def make_body(i: int, kind: str, expect: dict):
-            async def body() -> None:
+            async def body(task_status: Any = None) -> None:
                 cur = current_context()
+                st["live"].add(i)
                 chain = []
                 c = cur
                 while c is not None:
@@ -198,11 +219,19 @@ class C09(E1Check):
                             await env.gate(f"owntd{i}")
                         finally:
                             st["own_td_pending"].discard(i)
+                            st["live"].discard(i)
                             log("own-td-", i)
 
                     cur.add_teardown_callback(own_td)
                 try:
-                    if kind in ("ret", "ret-td"):
+                    if kind == "hs":
+                        # start-up handshake: the task is running, start_task() has not returned yet
+                        await env.gate(f"hs{i}")
+                        check_handles(f"body {i} before started()", False)
+                        log("started()", i)
+                        task_status.started(("sv", i))
+                        await env.gate(f"body{i}")
+                    elif kind in ("ret", "ret-td"):
                         await env.gate(f"body{i}")
                     elif kind in ("raise", "raise-td"):
                         await env.gate(f"body{i}")
@@ -218,9 +247,20 @@ class C09(E1Check):
                     raise
                 finally:
                     st["body_ended"].add(i)
+                    if i not in st["own_td_pending"]:
+                        st["live"].discard(i)
                     log("body-", i)
 
-            return body
+            if kind == "hs":
+                async def hs_body(*, task_status: Any) -> None:
+                    await body(task_status)
+
+                return hs_body
+
+            async def plain_body() -> None:
+                await body()
+
+            return plain_body
 
         async def waiter(i: int, handle: Any) -> None:
             await handle.wait_finished()
@@ -244,7 +284,7 @@ class C09(E1Check):
                         c = None
                     st["called_in"][i] = c
 
-                fn = body if i % 3 == 0 else (lambda: (called_in(), body())[1]) if i % 3 == 1 else functools.partial(body)
+                fn = body if i % 3 == 0 or s["body"] == "hs" else (lambda: (called_in(), body())[1]) if i % 3 == 1 else functools.partial(body)
                 if s["how"] == "start_task":
                     h = await factory.start_task(fn, f"t{i}")
                 else:
@@ -263,6 +303,10 @@ class C09(E1Check):
             st["spawned"][i] = h
             st["pending_spawn"].discard(i)
             log("spawned", i)
+            if s["body"] == "hs" and getattr(h, "start_value", None) != ("sv", i):
+                st["hfail"].append(("start-value", f"start_task() of task {i} returned a handle with start_value {getattr(h, 'start_value', '<unset>')!r}"))
+            if s["body"] == "hs" and not any(ev == ("started()", i) for ev in env.trace):
+                st["hfail"].append(("start-value", f"start_task() of task {i} returned before the task had called task_status.started()"))
             htg.start_soon(waiter, i, h)
             if s["body"] in ("forever", "ret", "ret-td", "raise-td") and s["how"] != "soon-cancel":
                 def cancel(i: int = i, h: Any = h) -> None:
